@@ -16,7 +16,8 @@ PROP = dict(
                "what it returned while the block was created on every field validate compares (gcv_frame); hence, with the two "
                "rebroadcast defects repaired, every block bundle_block returns passes validate on the producer and on any node "
                "with the same chain context (C07_full, C07_full_other_node, C07_fixed), for every well-formed pool (PoolWF: no "
-               "Issuance/ATR/GoldenTicket/BlockStake typed tx; pooled txs valid once the per-tx verdict gates validity). For the "
+               "Issuance/ATR/GoldenTicket/BlockStake typed tx; pooled txs valid once the per-tx verdict gates validity; no Fee-typed "
+               "tx once validate fixes the number of fee transactions - flag feeTxCount, surplus_fee_witness). For the "
                "pinned tree the same is proved whenever no rebroadcast carries a payout (C07_partial, noPayout_before_wrap, "
                "noPayout_mult_one). The model agrees with the real code on every produced block, every ConsensusValues field of "
                "producer and both validators, and every verdict.",
@@ -53,6 +54,7 @@ PROP = dict(
         "arguments; the 1.5x and 5 % caps are evaluated by the driver with IEEE doubles as the Rust expression does",
         "both nodes are fed identical blocks in the same order (no forks); the context the harness extracts from node B is "
         "compared literally with node A's (monitor C07/context-differs-on-same-chain)",
-        "the flag txv (per-transaction verdict) is measured by the chain suite's witness; atrkey by the ATR witness",
+        "the flag txv (per-transaction verdict) is measured by the chain suite's witness; atrkey by the ATR witness w1; "
+        "feecount (fee-transaction count rule) by w4b: Block::validate on the block carrying a surplus fee transaction",
     ],
 )
